@@ -36,7 +36,7 @@ def skey(ev, ctx, code):
     return "%s:%s" % (code, cmd)
 
 
-def judge(run, pid, results, kind, also=()):
+def judge(run, pid, results, kind, also=(), collect=None):
     totals, other = {}, {}
     for r in results:
         v = r["verdict"]
@@ -66,6 +66,8 @@ def judge(run, pid, results, kind, also=()):
             else:
                 other[prop] = other.get(prop, 0) + 1
                 run.foreign(prop, code, detail)
+                if collect is not None:
+                    collect.append((prop, code, detail, lines[line - 1]))
     if other:
         log("conjuncts of other properties failed in the same trace (not judged here): %s" % other)
     ec = run.cov.setdefault("event_counts", {})
@@ -94,12 +96,12 @@ def run_expiry(run, pid, h, scen, tags, depth, cap, budget, maxmate, label, also
     return totals, summ
 
 
-def run_trees(run, pid, h, scen, tags, depth, cap, budget, label):
+def run_trees(run, pid, h, scen, tags, depth, cap, budget, label, collect=None):
     d = R.trace_dir(pid + "-" + label)
     summ = vcommon.run_harness(h, ["trees", "--scen", scen, "--out", d, "--shards", vcommon.NCPU * (1 if run.tier == "quick" else 6), "--depth", depth, "--cap", cap, "--budget", budget, "--tags", tags])
     files = sorted(glob.glob(os.path.join(d, "search*.ndjson")))
     results = vcommon.validate_shards("TraceSearch", "TraceSearch.cfg", files, env_extra={"MAXMATE": "2"})
-    totals = judge(run, pid, results, "tree")
+    totals = judge(run, pid, results, "tree", collect=collect)
     skipped = [s for s in summ["scenarios"] if "skipped" in s]
     run.cov["trees_recorded"] = run.cov.get("trees_recorded", 0) + summ["trees"]
     run.cov["trees_skipped_by_cap"] = run.cov.get("trees_skipped_by_cap", 0) + len(skipped)
@@ -126,6 +128,34 @@ def run_matecerts(run, pid, h, scen, randoms, lo, hi, budget, label, shorter=0):
     return totals, summ
 
 
+def rep_tree_differential(run, h, scen, tags, label):
+    """C10, value clause.  `value = Ref` on a recorded tree is C12's conjunct (exactness of shallow search).  A mismatch is C10's
+    when it is the HISTORY that causes it: the same root position searched without a history (its twin) is valued exactly, with
+    the history it is not - then what the search does differently from the reference is how it values positions that have
+    occurred before."""
+    mism = []
+    run_trees(run, "C10", h, scen, tags, 3, 60000, 400000, label, collect=mism)
+    mism = [m for m in mism if m[0] == "C12" and m[3].get("root_fen")]
+    if not mism:
+        return
+    twins = os.path.join(vcommon.BUILD, "scen-C10twins-%d.json" % os.getpid())
+    fens = sorted({m[3]["root_fen"] for m in mism})[:40]
+    json.dump([{"tag": "twin", "cmd": "position fen " + f} for f in fens], open(twins, "w"))
+    tw = []
+    run_trees(run, "C10", h, twins, "twin", 3, 60000, 400000, "twintrees", collect=tw)
+    os.remove(twins)
+    inexact_without_history = {m[3].get("root_fen") for m in tw if m[0] == "C12"}
+    seen = set()
+    for prop, code, detail, ev in mism:
+        if ev["root_fen"] in fens and ev["root_fen"] not in inexact_without_history and ev["cmd"] not in seen:
+            seen.add(ev["cmd"])
+            run.violation("history-changes-exactness:" + ev["cmd"].replace(" ", "_"),
+                          "value-with-history: the search is exact on this position without a history and not with it (%s: %s)" % (code, detail),
+                          {"type": "scenario", "kind": "tree", "cmd": ev["cmd"], "depth": ev.get("D")})
+    run.cov["value_mismatches_in_repetition_scenarios"] = len(mism)
+    run.cov["of_them_exact_without_history"] = len(seen)
+
+
 def replay_scenario(run, pid, replay, also=()):
     spec = json.load(open(replay))["replay"]
     h = vcommon.build_harness()
@@ -133,6 +163,8 @@ def replay_scenario(run, pid, replay, also=()):
     json.dump([{"tag": "replay", "cmd": spec["cmd"]}], open(path, "w"))
     if spec.get("kind") == "mcert":
         run_matecerts(run, pid, h, path, 0, 1, 8, 1500000, "replay")
+    elif spec.get("kind") == "tree" and pid == "C10":
+        rep_tree_differential(run, h, path, "replay", "replay")
     elif spec.get("kind") == "tree":
         run_trees(run, pid, h, path, "replay", spec.get("depth") or 3, 60000, 400000, "replay")
     else:
@@ -251,7 +283,7 @@ def c10(tier, replay):
     t2, summ = run_expiry(run, "C10", h, scen, "rep", 4, 0, 400000, 2, "rep")
     if t2.get("sfull", 0) == 0:
         raise ToolError("coverage hole: no repetition scenarios")
-    run_trees(run, "C10", h, scen, "rep", 3, 60000, 400000, "reptrees")
+    rep_tree_differential(run, h, scen, "rep", "reptrees")
     os.remove(scen)
     model_search(run, tier, 3)
     run.cov["rule"] = ("(a) games with forced repetitions through play_out_position: TLC recomputes the multiset of Chess!Identity over the history and compares it "
